@@ -21,6 +21,13 @@ def run(tier):
             p.args = ["--dev", "2", "--classes", str(en.cls("REQ", "GUARD")), "--initial-cancel", "1"]
             p.label += "/dev2"
         progs += d2
+    if thorough:
+        # program families: all ordered trees with <= 4 states and the spine family (kind chains of depth 3 / 4)
+        fam = [p for p in en.systematic(4) + en.spines()]
+        for p in fam:
+            p.args = ["--dev", "1", "--batch", "1", "--deadline", "90"]
+        progs += fam
+        chk.coverage["program_families"] = {"programs": len(fam), "rule": "all ordered trees with <= 4 states (every region kind headed; composite/resumable/orthogonal also headless) + spine family (kind chains of depth 3 in two orientations, depth 4 over C/O/R)"}
     res = en.run_all(chk, "C16", progs, args, timeout=(2400 if thorough else 400))
     en.aggregate(chk, res, "C16")
     chk.coverage["explanation"] = (
